@@ -277,7 +277,7 @@ func c04FrontEnds(inner mc.Scenario) mc.Scenario {
 func init() {
 	Register(&Prop{
 		ID:    "C04",
-		Rule:  "decision table through the core space: one execution = one (context skeleton {top, struct field, slice element, behind pointer, struct in slice, pointer to struct, nested struct}, mode, ≤2 focus units over Required × Default{none, passing, failing, equal to the Go zero value} × tests × NotNil × the full input alphabet {valid, missing key, nil, \"\", spaces, tab/newline, NBSP, alternative representation, present-but-falsy 0/false/zero time/\"0\", failing, uncoercible} (Parse) / {valid, zero, failing} + {nil slice, empty slice, one element} + {nil pointer} (Validate)); plus typed-map inputs with missing keys; plus every single-unit case again with every node configured only after the schema tree was composed; plus the record Struct{s, p: Ptr(Struct{s4,i4}), q: Ptr(Int), n: Struct{s2}} with ≤2 focus units over Required × tests × {valid, missing, nil, empty, failing, uncoercible} rendered through all eight front ends (untagged and source-tagged destination), each compared with the documented semantics and with the Go-map rendering; non-trivial = deviating case; distinct = distinct (skeleton, mode, required issues, test-run counts)",
+		Rule:  "decision table through the core space: one execution = one (context skeleton {top, struct field, slice element, behind pointer, struct in slice, pointer to struct, nested struct}, mode, ≤2 focus units over Required × Default{none, passing, failing, equal to the Go zero value} × tests × NotNil × the full input alphabet {valid, missing key, nil, \"\", spaces, tab/newline, NBSP, alternative representation, present-but-falsy 0/false/zero time/\"0\", failing, uncoercible} (Parse) / {valid, zero, failing} + {nil slice, empty slice, one element} + {nil pointer} (Validate)); plus typed-map inputs with missing keys; plus every single-unit case again with every node configured only after the schema tree was composed, and again with Default(...) called before Required(); plus the record Struct{s, p: Ptr(Struct{s4,i4}), q: Ptr(Int), n: Struct{s2}} with ≤2 focus units over Required × tests × {valid, missing, nil, empty, failing, uncoercible} rendered through all eight front ends (untagged and source-tagged destination), each compared with the documented semantics and with the Go-map rendering; non-trivial = deviating case; distinct = distinct (skeleton, mode, required issues, test-run counts)",
 		Floor: 50,
 		Bound: func(tier string) string { return "k=2 focus units over the full (thorough) input alphabets in both tiers, 14 context skeletons, all visit orders" },
 		Assumptions: []string{
@@ -291,6 +291,17 @@ func init() {
 				return strings.HasPrefix(ns.Name, "P.") || ns.Name == "S2" || ns.Name == "L.Str" || ns.Name == "R.Str"
 			}) {
 				it.Name = "with-catch/" + it.Name
+				items = append(items, it)
+			}
+			// the table does not depend on the order of the builder calls: every single-unit case again with Default(...) called before Required()
+			for _, it := range coreItemsFiltered("thorough", c04Scenario, func(a *Alpha) { a.NoCatch = true; a.DefZero = true }, []int{0, 1}, 1, c04Keep) {
+				inner := it.Run
+				it.Name = "default-then-required/" + it.Name
+				it.Run = func(x *mc.X) *mc.Outcome {
+					BuildDefFirst = true
+					defer func() { BuildDefFirst = false }()
+					return inner(x)
+				}
 				items = append(items, it)
 			}
 			items = append(items, Item{Name: "typed-maps", MaxDevs: -1, Run: c04TypedMapScenario})
